@@ -20,6 +20,7 @@ import (
 	"net/http/httptest"
 	"path/filepath"
 	"runtime"
+	"strings"
 	"sync"
 	"sync/atomic"
 	"testing"
@@ -378,8 +379,9 @@ func TestC01(t *testing.T) {
 		sameLoginOtherGrants(t, r, dir)
 		denialWithFlakyAudit(t, r, dir)
 		serverWithoutWhoIs(t, r, dir)
+		metricsNameNothing(t, r, dir)
 	}
-	r.Require("requests_to_a_server_without_whois", "dashboard_pages_checked", "dashboard_pages_same_login_other_grants", "rules_without_patterns", "decisions_in_a_long_lived_server", "version_counter_probes", "overlapping_requests_same_login_other_grants", "denied_calls_with_flaky_audit", "rule_changes_mid_case", "concurrent_peer_replies", "concurrent_denied_calls", "cases", "http_cases_with_spoofed_identity_headers", "allowed_calls", "denied_calls", "denied_on_existing", "denied_on_absent")
+	r.Require("metrics_renderings_scanned", "requests_to_a_server_without_whois", "dashboard_pages_checked", "dashboard_pages_same_login_other_grants", "rules_without_patterns", "decisions_in_a_long_lived_server", "version_counter_probes", "overlapping_requests_same_login_other_grants", "denied_calls_with_flaky_audit", "rule_changes_mid_case", "concurrent_peer_replies", "concurrent_denied_calls", "cases", "http_cases_with_spoofed_identity_headers", "allowed_calls", "denied_calls", "denied_on_existing", "denied_on_absent")
 	r.Rule("case = (database state reached by 4-13 random superuser operations over a hostile 12-name pool incl. empty, reserved, newline, literal-'*' and path-like ('a/../b', 'a//b', 'a/b/') names; 0-3 random rules over the 5 actions (+unknown ones) and 23 exact/wildcard/regexp-meta patterns); then all 9 operations x all 8 names x versions {0,1,2,9} in random order, at the DB API and through the HTTP handlers. Distinct = (level, operation, authorised?, secret exists?, model outcome class, rule count)")
 }
 
@@ -816,4 +818,53 @@ func serverWithoutWhoIs(t *testing.T, r *evid.Run, dir string) {
 			return
 		}
 	}
+}
+
+// metricsNameNothing: the server's metrics are published beside the API for anybody on the tailnet to read
+// (cmd/setec hands Server.Metrics to expvar; the debug pages check the network, not setec grants). Whatever the
+// entitled callers have done, a rendering of the metrics names no secret and carries no value.
+func metricsNameNothing(t *testing.T, r *evid.Run, dir string) {
+	d, err := realdb.Open(filepath.Join(dir, "metrics.db"), realdb.DummyKey("c01m"))
+	if err != nil {
+		t.Fatal(err)
+	}
+	srv, err := httpdrv.New(d)
+	if err != nil {
+		t.Fatal(err)
+	}
+	rng := r.Rand(80808)
+	const addr = "100.64.8.8:8"
+	srv.SetWho(addr, httpdrv.Who{Login: "ops@verif", Node: "ops", Rules: []refmodel.Rule{{Actions: []string{"get", "info", "put", "activate", "delete"}, Patterns: []string{"*"}}}})
+	names := []string{"prod/zq9-db-password-x7", "prod/zq9-stripe-live-key-x7", "zq9-only-put-never-fetched-x7"}
+	var vals [][]byte
+	for _, n := range names {
+		v := marker(rng)
+		vals = append(vals, v)
+		srv.Do(addr, ops.Op{Kind: ops.Put, Name: n, Value: v})
+		srv.Do(addr, ops.Op{Kind: ops.Put, Name: n, Value: marker(rng)})
+	}
+	for round := 0; round < 3; round++ {
+		for _, n := range names[:2] {
+			for _, op := range []ops.Op{{Kind: ops.Get, Name: n}, {Kind: ops.GetVer, Name: n, Version: 1}, {Kind: ops.GetCond, Name: n, Version: 9}, {Kind: ops.Info, Name: n}, {Kind: ops.Act, Name: n, Version: 2}, {Kind: ops.List}} {
+				srv.Do(addr, op)
+			}
+		}
+		if round == 1 {
+			srv.Do(addr, ops.Op{Kind: ops.Delete, Name: names[1]})
+		}
+		out := srv.S.Metrics().String()
+		r.Eval(1)
+		r.Count("metrics_renderings_scanned", 1)
+		for _, n := range names {
+			if strings.Contains(out, n) || strings.Contains(out, "zq9") {
+				r.Violation("metrics-name-a-secret", -1, fmt.Sprintf("after entitled callers used the API, the server's metrics (readable without any setec grant) contain the secret name %q: %.300s", n, out), nil)
+				return
+			}
+		}
+		if leaks([]byte(out), vals) {
+			r.Violation("metrics-carry-a-value", -1, "the server's metrics contain secret value bytes", nil)
+			return
+		}
+	}
+	r.Distinct("metrics name nothing")
 }
